@@ -113,7 +113,7 @@ PROPS = {
     "C12": P("proof", "no modelled parser reaches a panic site, for ALL byte strings: fen_total, fen_board_total, uci_total, san_total, "
              "the four base-type parsers; uci_in_position_total and san_in_position_total in every validated board (all three UCI readers, "
              "SAN resolution incl. candidate search); reparse for coord/cell/colour/rights/UCI",
-             ["reparse clause: FEN proved (C08.fen_parse_format_parse); SAN values differential-only (rt= flag on the implementation)",
+             ["reparse clause: FEN proved (C08.fen_parse_format_parse); UCI proved (C12.uci_reparse); SAN proved for ANY byte string the parser accepts (Props/C09_styles: san_reparse, sanData_reparse_any) — and additionally checked on the implementation (rt= flag)",
               "push_uci_list totality at every token: proved in Props/C12_chain (pushUciList_no_trap, makeUciStr_no_trap) over the C13 invariant"],
              "Lean 4 theorems over byte-level parser models with explicit trap results (loop invariant for parse_cells, case analysis "
              "for the SAN/UCI grammars, king existence from the validation theorems)", "§6 C12", 1.0),
@@ -131,9 +131,11 @@ PROPS = {
              "position's own outcome when forced or a mandatory draw, else ≥5 / ≥3 occurrences of the current hash in hs give Repeat5 / "
              "Repeat3, else the position's own outcome); occurrences_ge (every true repetition — same squares, side, rights, en-passant "
              "mark — is counted, by C05); passes_table (forced pass every filter, mandatory strict+relaxed, claimable relaxed only); "
-             "auto_spec (stores the calculated outcome exactly when it passes the filter); pop_push_counts; calc_total (no panic)",
+             "auto_spec (stores the calculated outcome exactly when it passes the filter); pop_push_counts; calc_total (no panic); "
+             "Props/C14_exact: occurrences_eq and calc_spec_exact(') — with no 64-bit collision between the current position and "
+             "the history the count IS the true repetition count and the calculation is stated over it",
              ["the position's own outcome (mate / stalemate / insufficient / 75 / 50) is C07 (now proved: calcOutcome_eq)",
-              "occurrences are counted by Zobrist hash: an over-count needs a 64-bit collision (cannot be excluded by proof; C05 shows no under-count)"],
+              "occurrences are counted by Zobrist hash: an over-count needs a 64-bit collision (cannot be excluded by proof; C05 shows no under-count; C14_exact states the exact result under the explicit NoCollision hypothesis)"],
              "Lean 4 theorems over the chain invariant; differential on generated chain scripts (repetition-heavy flavours) ties the model to the code",
              "§6 C14"),
     "C15": P("proof", "rook/bishop lookups exact for all 64 squares × all 2^64 occupancies (kernel-decided over every submask of the "
@@ -156,7 +158,7 @@ PROPS = {
              "with N = position's move number − start's + first number, status token), styled_status (status = fmtStatus of the stored outcome)",
              ["'rebuilds an equal chain' holds with the outcome cleared (the text carries no outcome; PartialEq compares it) — stated so",
               "styled_spec assumes the start move number ≤ 65535 (u16 in the code; the model stores a Nat)",
-              "SAN style never fails on a recorded (legal) move: C09.san_output_roundtrip; the figurine style is differential only"],
+              "SAN style never fails on a recorded (legal) move: C09.san_output_roundtrip; the figurine style is proved too (Props/C09_styles: styled_sanUtf8, styled_total)"],
              "Lean 4 theorems by induction over step lists and over the game; differential on generated chain scripts (walk / uci / rebuild / styled, custom numbers up to 2^32) ties the model to the code",
              "§6 C17"),
     "C18": P("proof", "rules level (Lemmas/MirrorSpec): rules_mirror_v / rules_mirror_h — the mirror image of a valid position is valid, "
@@ -176,7 +178,7 @@ PROPS = {
              "rookIndex_lt / bishopIndex_lt (the magic lookup index is inside the table for every square and all 2^64 occupancies), "
              "zobrist / square / cell / rights index ranges, on-board lemmas for every unchecked square-arithmetic site of the validator, "
              "make-move and the pawn generators (Props/C19_gen)",
-             ["'in checked and optimised builds alike': the theorems are about source-level index arithmetic; the compilation itself is exercised by debug and release runs of the harness only"],
+             ["'in checked and optimised builds alike': the theorems are about source-level index arithmetic; the compilation itself is exercised, not proved, by running every case in two build configurations (debug with all checks on; release under AddressSanitizer — DESIGN §11.3)"],
              "Lean 4 theorems (kernel-checked optimisation certificates for the capacity bound; kernel-decided table ranges); differential "
              "genvec / gen / attackers / atk / index-constructor sweeps on maximal-mobility positions tie the model to the code",
              "§6 C19"),
